@@ -18,3 +18,13 @@ package action
 //@   ghostset after call path/filepath.Abs#*: outArg = outfile
 //@   assert after call go-file/v2.Create#*: [out-file-is-created-by-its-absolute-path] isAbsPath(outfile) || !absOk(outArg)
 //@   modifies *
+
+// C19: `csvq fields <text>`: a text that is not a file but happens to parse as something other than one table object (a set
+// operation, a join, several statements) is reported as a missing file; it used to be taken apart with unchecked type
+// assertions outside any recover (raw Go panic, exit 2)
+//@ func ShowFields
+//@   property C19
+//@   safety
+//@   abstract *
+//@   requires proc != nil && proc.Tx != nil && proc.Tx.Flags != nil
+//@   modifies *
